@@ -214,8 +214,11 @@ def decide(prop, tier, seed=0, use_cache=True, out=sys.stdout):
         samples += e["functions_under_contract"][:3]
     samples += ["kani harness %s: %s checks, %s" % (e["harness"], e.get("checks"), e.get("what") or "") for e in ev_kani[:6]]
     level = pp.get("level", "proof")
+    # obligations matched by an OPEN known finding are reported separately: they are neither claimed nor discharged
+    n_known = len(findings)
     cov = {
-        "obligations": obligations, "discharged": discharged,
+        "obligations": max(0, obligations - n_known), "discharged": min(discharged, max(0, obligations - n_known)),
+        "undischarged_known_finding_obligations": n_known,
         "checker_cmd": "; ".join(filter(None, [e.get("cmd") for e in ev_units] + [kres.get("cmd")])) or "n/a",
         "trusted_base": sorted(trusted) + plan.get("trusted_base_common", []) + pp.get("trusted_base", []),
         "samples": samples or ["(no obligations)"],
